@@ -4,6 +4,7 @@ package main
 // arrays, with local simplification and an SMT-LIB2 printer.
 
 import (
+	"regexp"
 	"fmt"
 	"math/bits"
 	"sort"
@@ -1090,37 +1091,77 @@ func BuildQuery(assume []*Term, goal *Term, getValues []*Term) string {
 	for _, v := range getValues {
 		gv = append(gv, p.expr(v))
 	}
-	var sb strings.Builder
-	names := make([]string, 0, len(p.vars))
-	for n := range p.vars {
-		names = append(names, n)
-	}
-	sort.Strings(names)
-	for _, n := range names {
-		fmt.Fprintf(&sb, "(declare-fun |%s| () %s)\n", n, p.vars[n])
-	}
-	ufn := make([]string, 0, len(p.ufs))
-	for n := range p.ufs {
-		ufn = append(ufn, n)
-	}
-	sort.Strings(ufn)
-	for _, n := range ufn {
-		sb.WriteString(p.ufs[n])
-		sb.WriteByte('\n')
-	}
+	// Canonical names: the global counters behind n<id> and name!<k> depend on
+	// what was verified earlier in the same process, and the solvers' running
+	// time depends on symbol names. Renumber both in order of first appearance
+	// so that the text of a query depends only on its structure.
+	rn := &renamer{defs: map[string]string{}, sufs: map[string]string{}}
+	var body strings.Builder
 	for _, d := range p.order {
+		body.WriteString(rn.apply(d))
+		body.WriteByte('\n')
+	}
+	for _, a := range asserts {
+		fmt.Fprintf(&body, "(assert %s)\n", rn.apply(a))
+	}
+	fmt.Fprintf(&body, "(assert %s)\n", rn.apply(g))
+	body.WriteString("(check-sat)\n")
+	if len(gv) > 0 {
+		for i := range gv {
+			gv[i] = rn.apply(gv[i])
+		}
+		fmt.Fprintf(&body, "(get-value (%s))\n", strings.Join(gv, " "))
+	}
+	var sb strings.Builder
+	decls := make([]string, 0, len(p.vars))
+	for n, srt := range p.vars {
+		decls = append(decls, fmt.Sprintf("(declare-fun %s () %s)", rn.apply("|"+n+"|"), srt))
+	}
+	sort.Strings(decls)
+	for _, d := range decls {
 		sb.WriteString(d)
 		sb.WriteByte('\n')
 	}
-	for _, a := range asserts {
-		fmt.Fprintf(&sb, "(assert %s)\n", a)
+	ufn := make([]string, 0, len(p.ufs))
+	for n := range p.ufs {
+		ufn = append(ufn, rn.apply(p.ufs[n]))
 	}
-	fmt.Fprintf(&sb, "(assert %s)\n", g)
-	sb.WriteString("(check-sat)\n")
-	if len(gv) > 0 {
-		fmt.Fprintf(&sb, "(get-value (%s))\n", strings.Join(gv, " "))
+	sort.Strings(ufn)
+	for _, u := range ufn {
+		sb.WriteString(u)
+		sb.WriteByte('\n')
 	}
+	sb.WriteString(body.String())
 	return sb.String()
+}
+
+type renamer struct {
+	defs map[string]string
+	sufs map[string]string
+}
+
+var renameRe = regexp.MustCompile(`\|[^|]*\||\bn[0-9]+\b`)
+var sufRe = regexp.MustCompile(`![a-z]?[0-9]+`)
+
+func (r *renamer) apply(s string) string {
+	return renameRe.ReplaceAllStringFunc(s, func(tok string) string {
+		if tok[0] == '|' {
+			return sufRe.ReplaceAllStringFunc(tok, func(x string) string {
+				if y, ok := r.sufs[x]; ok {
+					return y
+				}
+				y := fmt.Sprintf("!%d", len(r.sufs)+1)
+				r.sufs[x] = y
+				return y
+			})
+		}
+		if y, ok := r.defs[tok]; ok {
+			return y
+		}
+		y := fmt.Sprintf("n%d", len(r.defs)+1)
+		r.defs[tok] = y
+		return y
+	})
 }
 
 func hasQuant(ts []*Term) bool {
